@@ -54,6 +54,11 @@ static Verdict runCase(const OpSeq& c, Info& info)
             size_t o = wire::kCmpHeader;
             while (f.size() - o >= wire::kMsgHeader && pkt < batch.size())
             {
+                // packets without payload bytes put no message on the wire (they can still open a frame of their own)
+                while (pkt < batch.size() && batch[pkt].getPayloadLength() == 0)
+                    ++pkt;
+                if (pkt == batch.size())
+                    break;
                 wire::MsgHdr mh = wire::getMsgHdr(f.data() + o);
                 if (mh.payloadType == 0 || o + wire::kMsgHeader + mh.length > f.size())
                     break;
@@ -157,6 +162,15 @@ static Verdict runCase(const OpSeq& c, Info& info)
         info.tag("id_set_to_the_value_already_configured_after_frames");
     if (wrapped)
         info.tag("counter_wrapped");
+    for (const auto& op : c.ops)
+        if (op.op == 3 || op.op == 5 || op.op == 6)
+            for (const auto& r : op.batch.packets)
+                if (r.kind == rkGeneric && r.emptyPayload)
+                {
+                    info.tag("batch_with_zero_length_payload_packet");
+                    goto tagged;
+                }
+tagged:
     if (encodeAfterChange)
         info.tag("encode_after_id_change_or_restart");
     info.nontrivial = wrapped || encodeAfterChange;
@@ -192,7 +206,26 @@ static rc::Gen<OpSeq> genCase(int tier)
             else if (op.op == 4)
                 op.arg = *rc::gen::weightedOneOf<uint32_t>({{1, range<uint32_t>(1, 50)}, {2, range<uint32_t>(20000, 33000)}, {1, range<uint32_t>(65000, 66000)}});
             else if (op.op >= 3)
+            {
                 op.batch = *genEncCase(p);
+                // a third of the batches hold packets with a zero-length payload (e.g. a control message without data) at the
+                // start, the end or between packets of another message type: they carry no message but may open a frame
+                if (*range<int>(0, 2) == 0)
+                {
+                    int k = *range<int>(1, 2);
+                    for (int j = 0; j < k; ++j)
+                    {
+                        PacketRecipe z;
+                        z.kind = rkGeneric;
+                        z.msgType = *rc::gen::element<uint8_t>(1, 2, 3, 0xFF);
+                        z.ptype = *rc::gen::element<uint8_t>(0x01, 0x20, 0xFF);
+                        z.len = 0;
+                        z.emptyPayload = 1;
+                        size_t at = *rc::gen::weightedOneOf<size_t>({{1, rc::gen::just<size_t>(0)}, {1, rc::gen::just(op.batch.packets.size())}, {1, range<size_t>(0, op.batch.packets.size())}});
+                        op.batch.packets.insert(op.batch.packets.begin() + static_cast<std::ptrdiff_t>(at), z);
+                    }
+                }
+            }
             s.ops.push_back(op);
         }
         return s;
